@@ -2,36 +2,16 @@
 import os
 from . import core
 
-Q, T = 'quick', 'thorough'
-
-
-def job(name, harness, mode, variant='asan', **kw):
-    d = dict(name=name, harness=harness, sources=['harness/%s.cpp' % harness], mode=mode, variant=variant)
-    d.update(kw)
-    return d
+from .jobs import job, Q, T
 
 
 PROPS = {}
 
-PROPS['C01'] = dict(
-    level='exploration',
-    rule='case = one operation history on a Map/MultiMap (exhaustive: one insertion order of n<=N keys followed by every single removal and both drains; '
-         'random: swarm-weighted history of 20..1500 ops). distinct = distinct hash of the (operation kind, key) sequence; non-trivial = reached >=2 entries and executed >=1 removal. '
-         'After every operation: full forward/backward iteration, size, front/back, find/contains/count for every universe key, comparison count of find vs 2*floor(1.4405*log2(n+2)), '
-         'AVL structure walk (parent links, heights, slopes, threaded list) via access override.',
-    assumptions=['ASan/UBSan red zones; library ASSERTs enabled (-DDEBUG)', 'hinted insert of an equal key may land anywhere in its run of equal keys; MultiMap::find/remove(key) may pick any equal entry'],
-    exhaustive={Q: False, T: False},
-    jobs=[
-        job('map-exh', 'h_map', 'map-exh', cases=-1, scale={Q: 7, T: 8}, procs=16, probes=[]),
-        job('multi-exh', 'h_map', 'multi-exh', cases=-1, scale={Q: 6, T: 8}, procs=16, probes=['MultiMap.count/value', 'MultiMap.copy-construct/shallow']),
-        job('map-rand', 'h_map', 'map-rand', cases={Q: 1600, T: 40000}, procs=16),
-        job('multi-rand', 'h_map', 'multi-rand', cases={Q: 1600, T: 40000}, procs=16),
-        job('map-depth', 'h_map', 'map-depth', cases={Q: 16, T: 160}, procs=16),
-        job('multi-depth', 'h_map', 'multi-depth', cases={Q: 16, T: 160}, procs=16),
-    ],
-    floors={Q: dict(ops=100000, lookups=1000000, structure_walks=100000, two_child_removals=1000, **{'set:hint_classes': 7}),
-            T: dict(ops=1000000, lookups=10000000, structure_walks=1000000, two_child_removals=10000, **{'set:hint_classes': 7})},
-)
+import importlib
+for _i in range(1, 21):
+    _id = 'C%02d' % _i
+    if os.path.exists(os.path.join(os.path.dirname(__file__), 'p_%s.py' % _id)):
+        PROPS[_id] = importlib.import_module('vlib.p_' + _id).SPEC
 
 
 def setup():
